@@ -17,6 +17,7 @@ package sorted_set
 import (
 	"cmp"
 	"errors"
+	"github.com/echovault/sugardb/internal"
 	"slices"
 	"strconv"
 	"strings"
@@ -176,4 +177,13 @@ func compareMembers(a, b MemberParam) int {
 		return c
 	}
 	return cmp.Compare(a.Value, b.Value)
+}
+
+// clearDestination removes whatever the destination key of a ...STORE command holds.
+// It is used when the result to store is empty: the destination is replaced by the (empty) result.
+func clearDestination(params internal.HandlerFuncParams, destination string) error {
+	if params.KeysExist(params.Context, []string{destination})[destination] {
+		return params.DeleteKey(params.Context, destination)
+	}
+	return nil
 }
